@@ -242,6 +242,9 @@ class Ctx:
         self.known = [k for k in load_known() if k.get("property") == prop and k.get("status") == "known"]
         self.replay_dir = os.path.join(VERIF, "replays")
         os.makedirs(self.replay_dir, exist_ok=True)
+        for f in os.listdir(self.replay_dir):          # replay files of earlier runs of this check and tier are stale
+            if f.startswith("%s-%s-" % (prop, tier)):
+                os.remove(os.path.join(self.replay_dir, f))
         self.quick = tier == "quick"
 
     # -- accounting
